@@ -346,6 +346,8 @@ func (f *frame) inline(res ssa.Value, plan callPlan, c *ssa.CallCommon, st *Stat
 	t := f.t
 	B := t.B
 	sub := t.newFrame(plan.callee, false, f.depth+1)
+	sub.prefix = f.prefix + plan.callee.Name() + ":"
+	sub.silent = f.silent
 	args := f.argVals(c)
 	// free variables
 	for i, fv := range plan.callee.FreeVars {
